@@ -142,6 +142,7 @@ let run_sstcp kind key ikeys users mode own_salt addr now ops =
   let new_sess () = { s_mode = md; s_salt = unhex own_salt; s_req_salt = None; s_user = None;
                       s_addr = (if addr = "-" then None else Some (parse_addr addr)) } in
   let cache = ref [] and sess = ref (new_sess ()) and cd = ref codec_new and buf = ref [] and dead = ref false in
+  let cur = ref 0 and parked = ref [] in
   let dec (s, d) src =
     let (c', r) = ss_decode prims cx now !cache s d src in
     cache := c';
@@ -151,8 +152,15 @@ let run_sstcp kind key ikeys users mode own_salt addr now ops =
   let outs = List.map (fun op ->
     if op = "" then None else
     let c = op.[0] and arg = String.sub op 1 (String.length op - 1) in
-    if !dead && c <> 'N' then Some "SKIP" else
+    if !dead && c <> 'N' && c <> 'S' then Some "SKIP" else
     match c with
+    | 'S' ->
+      let k = int_of_string arg in
+      parked := (!cur, (!sess, !cd, !buf, !dead)) :: List.remove_assoc !cur !parked;
+      (match List.assoc_opt k !parked with
+       | Some (s, d, b, dd) -> sess := s; cd := d; buf := b; dead := dd; parked := List.remove_assoc k !parked
+       | None -> sess := new_sess (); cd := codec_new; buf := []; dead := false);
+      cur := k; Some (Printf.sprintf "CONN%d" k)
     | 'N' -> sess := new_sess (); cd := codec_new; buf := []; dead := false; Some "NEW"
     | 'E' | 'e' ->
       (match ss_encode prims cx now [] !sess !cd (unhex arg) with
